@@ -41,7 +41,8 @@ def gen_study(rng, root):
     names = rng.sample(["pre", "run", "post", "sim", "ana", "merge"], rng.randint(1, 6))
     params = {}
     if rng.random() < 0.5:
-        params["X"] = {"values": rng.choice([[1, 2], [1, 2, 3], ["a", "b"]]), "label": "X.%%"}
+        params["X"] = {"values": rng.choice([[1, 2], [1, 2, 3], ["a", "b"], ["Good morning", "x(1)"],
+                                             ["a b", "c&d", "e;f"], ["$HOME", "q'r"]]), "label": "X.%%"}
         if rng.random() < 0.4:
             params["Y"] = {"values": [5] * len(params["X"]["values"]), "label": "Y.%%"}
     log = os.path.join(root, "RUNLOG")
